@@ -662,10 +662,19 @@ func runUnits(worker, raceWorker, id, tier string, seed int64, units []string, n
 					timedOut = true
 				}
 				if timedOut || line.err != nil {
+					if timedOut && cmd != nil && cmd.Process != nil {
+						// ask the runtime for the goroutine dump before killing the worker
+						syscall.Kill(cmd.Process.Pid, syscall.SIGQUIT)
+						time.Sleep(3 * time.Second)
+					}
 					tail := ""
 					if stderr != nil {
 						tail = stderr.String()
-						if len(tail) > 3000 {
+						if timedOut {
+							if len(tail) > 20000 {
+								tail = tail[:20000]
+							}
+						} else if len(tail) > 3000 {
 							tail = tail[len(tail)-3000:]
 						}
 					}
@@ -674,7 +683,11 @@ func runUnits(worker, raceWorker, id, tier string, seed int64, units []string, n
 					if timedOut {
 						what = "hung (hard timeout " + hard.String() + ")"
 					}
-					if j.tries < 1 && !timedOut {
+					if j.tries < 1 {
+						// once more, in a fresh process (a unit that kills or wedges its process does so again)
+						if timedOut {
+							os.WriteFile(filepath.Join(verif, "replays", id+"-first-hang-"+strings.ReplaceAll(units[j.idx], "/", "_")+".txt"), []byte(tail), 0644)
+						}
 						jobs <- job{idx: j.idx, tries: j.tries + 1}
 						continue
 					}
